@@ -636,7 +636,8 @@ func (x *Exec) builtin(fr *Frame, b *ssa.Builtin, c *ssa.CallCommon, args []Val,
 	case "print", "println":
 		return Val{T: rt}, st
 	case "close":
-		x.fail("close of channel")
+		x.chanClose(args[0], st, reach, pos)
+		return Val{T: rt}, st
 	}
 	x.fail("builtin %s", b.Name())
 	return Val{}, st
